@@ -233,7 +233,7 @@ theorem stageS_poll {g : E2E.Cfg} (ok : g.OK) {c : Conn} (hst : StageS g c) :
     have hF : F <+: g.W := ⟨c.env.tr.input, by have := hst.wire; rwa [List.append_nil] at this⟩
     have hpre := out_prefix ok hF
     have hlogp : c.env.tr.wlog <+: g.L0 ++ owedPreamble g.p g.mc g.recs := by
-      rcases hst.ph with ⟨_, _, h⟩ | ⟨rest, _, h⟩
+      rcases hst.ph with ⟨_, _, h⟩ | ⟨rest, _, h, _⟩
       · have h' : c.env.tr.wlog = g.L0 ++ (run .header F g.mc).out := h
         rw [h']; exact (List.prefix_append_right_inj _).2 hpre
       · have h' : c.env.tr.wlog ++ rest = g.L0 ++ (run .header F g.mc).out := h
@@ -261,7 +261,7 @@ theorem stageS_poll {g : E2E.Cfg} (ok : g.OK) {c : Conn} (hst : StageS g c) :
     -- the reused connection's `parse_request`: it owes nothing for (a prefix of) what was left unread
     have hFU : F <+: g.U := ⟨c.env.tr.input, hfin⟩
     have hout := (run_U_prefix ok hFU).2
-    rcases hst.ph with ⟨hph, _, h⟩ | ⟨rest, hph, h⟩
+    rcases hst.ph with ⟨hph, _, h⟩ | ⟨rest, hph, h, _⟩
     · have h' : c.env.tr.wlog = g.L3 O1 O2 ++ (run .header F g.mc).out := h
       rw [hout, List.append_nil] at h'
       exact fin_now _ _ hph (.done (exact := true) hO ⟨rfl, ⟨[], by rw [List.append_nil]; exact h', fun _ => rfl⟩, hev, hre, hsc, F, hfin⟩)
